@@ -269,6 +269,9 @@ func vC08AliasCase(t *testing.T, o *vC08Out, w *vC08World, pr vC08AliasParams, k
 			outerTTL = msgTTL
 		}
 	}
+	// the shape of the target leg's reply as the chase sees it: a denial in the RFC 2308 form carries its SOA, a bare one
+	// nothing; an address reply its records
+	legRecords, legNX := !bareDenial, pr.Outcome == 1
 	kind := kindPrefix + "alias-" + map[bool]string{true: "dname", false: "cname"}[pr.Dname] + "-" + []string{"address", "nxdomain", "nodata"}[pr.Outcome]
 	if bareDenial {
 		kind += "-bare"
@@ -278,8 +281,8 @@ func vC08AliasCase(t *testing.T, o *vC08Out, w *vC08World, pr vC08AliasParams, k
 	}
 	m := map[string]any{
 		"k": kind, "go_fail": goFail, "nontrivial": !inconcl,
-		"coq": fmt.Sprintf("CaseAlias %s %d %d %d %s %s %s %s %s [%s] %s %s %s %s %s",
-			vC08B(pr.Dname), pr.TLD, pr.A, pr.B, vC08Z(outerTTL*sec), vC08Z(msgTTL*sec), warmTerm, vC08Z(t0), vC08Z(t1),
+		"coq": fmt.Sprintf("CaseAlias %s %s %s %d %d %d %s %s %s %s %s [%s] %s %s %s %s %s",
+			vC08B(pr.Dname), vC08B(legRecords), vC08B(legNX), pr.TLD, pr.A, pr.B, vC08Z(outerTTL*sec), vC08Z(msgTTL*sec), warmTerm, vC08Z(t0), vC08Z(t1),
 			strings.Join(ds, "; "), outerTerm, targetTerm, vC08Z(t4), vC08B(fromOld), vC08B(oldAsked)),
 		"desc": fmt.Sprintf("TTLs tld %d a.tld. %d b.tld. %d alias %d answer %d neg %d; %s %s -> %s (outcome %d) warm=%v gap=%ds withdraw=%v wire=%v bare=%v: tree [%v..%v] rcode=%d src=%d; %v; %s; %s; lease end %v, asked again at t=%v: rcode=%d src=%d old servers asked=%v",
 			pr.TLD, pr.A, pr.B, pr.AliasTTL, pr.AnsTTL, pr.NegTTL, outer, dns.TypeToString[qtype], target, pr.Outcome, pr.Warm, pr.GapS, pr.Withdraw, pr.Wire, pr.Bare,
